@@ -158,6 +158,12 @@ func (r *Rec) Suite(suite string, n int, fn func(c *Case)) {
 	}
 }
 
+// OneCase returns a stand-alone case (used by native fuzz targets, where the
+// fuzzing engine owns the iteration).
+func (r *Rec) OneCase(suite string, i int) *Case {
+	return &Case{r: r, Suite: suite, I: i, R: r.Rand(suite, i)}
+}
+
 // Exhaustive marks a suite as having enumerated a finite space completely
 // (only meaningful when all batches ran; the driver checks that).
 func (r *Rec) Exhaustive(suite string) {
